@@ -510,6 +510,10 @@ impl World {
             if p_ == "C05" && c == "use-after-destroy" {
                 self.note("C14", "value-used-after-free", Some(obj), Some(op), d.clone());
             }
+            if p_ == "C01" && c == "overlap" {
+                // two operations hold `&mut T` to the same value at once: aliased mutable access (a data race on real threads)
+                self.note("C14", "aliased-mutable-access", Some(obj), Some(op), d.clone());
+            }
             if p_ == "C01" || p_ == "C02" {
                 let extra = match kind {
                     Kind::Sync => Some("C04"),
